@@ -14,7 +14,7 @@ module AR = ActionRefs
 module SL = Stdlib.List
 
 type opart = OE | OS of int * int | OL of int * int | OO of opart | OQ of opart * opart | OC of opart * opart
-           | ON of opart | OA of opart | OK of int
+           | ON of opart | OA of opart | OK of int | OM
 
 let rec opart_of x = match lst x with
   | [A "e"] -> OE
@@ -26,6 +26,7 @@ let rec opart_of x = match lst x with
   | [A "n"; p] -> ON (opart_of p)
   | [A "a"; _; p] -> OA (opart_of p)
   | [A "k"; c] -> OK (get_int c)
+  | [A "m"; _] -> OM   (* a state marker: the oracle ignores it -- no slot, not counted by $N *)
   | _ -> failwith "part"
 
 let rec mpart_of x = match lst x with
@@ -38,6 +39,7 @@ let rec mpart_of x = match lst x with
   | [A "n"; p] -> AR.PScope (mpart_of p)
   | [A "a"; nm; p] -> AR.PAlias (get_n nm, mpart_of p)
   | [A "k"; c] -> AR.PCmd (get_n c)
+  | [A "m"; m] -> AR.PMark (get_n m)
   | _ -> failwith "part"
 
 type oref = { kind : int; prop : int; denotes : int list }
@@ -89,7 +91,7 @@ let run_case inp =
     let (obody, mbody) = SL.assoc rid rules in
     (* how many occurrences are present in this expansion *)
     let rec count p sel = (match p with
-      | OE | OK _ -> (0, sel)
+      | OE | OK _ | OM -> (0, sel)
       | OS _ | OL _ -> (1, sel)
       | OO q -> (match sel with true :: r -> count q r | _ :: r -> (0, r) | [] -> (0, []))
       | OQ (a, b) -> let (x, r) = count a sel in let (y, r) = count b r in (x + y, r)
@@ -108,6 +110,11 @@ let run_case inp =
         let o = get_int off in
         let isstr = SL.nth termstr (get_int sym) in
         { v = (if isstr then "t" ^ string_of_int o else string_of_int (100 + o)); off = o; fin = o + 1 }
+      | [A "u"; _; off; kind] ->
+        (* an element of set(..): no rule of the setof_ nonterminal assigns a value; when all terminals of the set
+           have one type the reference is typed and reads that type's zero value (types are not modelled) *)
+        let o = get_int off in
+        { v = (match get_int kind with 1 -> "0" | 2 -> "empty" | _ -> "nil"); off = o; fin = o + 1 }
       | [A "l"; elems; st] ->
         let st = get_int st in
         (* a star list starts from the empty rule: its first element already has the list in front *)
@@ -149,7 +156,7 @@ let run_case inp =
       ks := k :: !ks;
       if asg && is_final then value := "v" ^ string_of_int k in
     let rec walk p = (match p with
-      | OE -> ()
+      | OE | OM -> ()
       | OS (_, occ) | OL (_, occ) ->
         let e = eval_child (take_child ()) in
         present := (occ, e) :: !present; centries := e :: !centries; incr npresent; cur := e.fin
@@ -194,15 +201,30 @@ let contains s sub =
   let n = String.length s and m = String.length sub in
   let rec go i = i + m <= n && (String.sub s i m = sub || go (i + 1)) in go 0
 
+(* the model's verdict on "mixing mid-rule actions with state markers is not supported": some rule has an
+   expansion with a state marker in front of a mid-rule action (ActionRefs.rule_mixes) *)
+let gram_mixes gram =
+  let rules_x = (match lst gram with [r; _; _] -> r | _ -> failwith "gram") in
+  SL.exists (fun r -> match lst r with
+    | [_; p] -> AR.rule_mixes (mpart_of p)
+    | _ -> failwith "rule") (lst rules_x)
+
 let () = Reg.register "c16.gen" (fun inp _ ->
-  let verdict = (match lst inp with
-    | [A "joined"; _; _; msg] ->
-      let text = String.concat "" (SL.map (fun c -> String.make 1 (Char.chr (get_int c))) (lst msg)) in
-      if contains text "invalid reference" && contains text "Cannot find symbol"
+  let text msg = String.concat "" (SL.map (fun c -> String.make 1 (Char.chr (get_int c))) (lst msg)) in
+  match lst inp with
+  | [A "mix"; gram; _; msg] ->
+    (* a rejected grammar with state markers: justified exactly when the model says a marker precedes a mid-rule action *)
+    let m = gram_mixes gram in
+    ((if m then A "failed" else A "compiles"),
+     (if m && contains (text msg) "mixing mid-rule actions with state markers" then "ok"
+      else "bad:legal-action-grammar-rejected"))
+  | [A "joined"; _; _; msg] ->
+    let text = text msg in
+    (A "compiles",
+     (if contains text "invalid reference" && contains text "Cannot find symbol"
       then "bad:joined-action-loses-names-of-first-block"
-      else "bad:legal-action-grammar-rejected"
-    | _ -> "bad:legal-action-grammar-rejected") in
-  (A "compiles", verdict))
+      else "bad:legal-action-grammar-rejected"))
+  | _ -> (A "compiles", "bad:legal-action-grammar-rejected"))
 
 (* ---------- c16.table: the Names table / MaxPos of every action ----------
    MODEL: the extracted convert_rule on every rule body; the table it records for each command the harness
@@ -249,11 +271,14 @@ let table_case inp out =
         | [A "n"; p] -> walk p (depth + 1)
         | [A "a"; nm; p] -> let ps = walk p depth in if ps <> [] then pushes := (get_int nm, ps) :: !pushes; ps
         | [A "k"; c] -> Hashtbl.replace info (get_int c) (SL.rev !pushes, depth > 0, !pos); []
+        | [A "m"; _] -> []   (* a state marker takes no position and pushes no name *)
         | _ -> failwith "part") in
       ignore (walk p 0)
     | _ -> failwith "rule") (lst rules_x);
   let verdict = ref "ok" in
   let fail v = if !verdict = "ok" then verdict := v in
+  (* the grammar compiled: the model must not say that a marker precedes a mid-rule action *)
+  if gram_mixes gram then fail "bad:marker-before-mid-rule-action-accepted";
   (match out with
    | L (A "tables" :: tabs) ->
      let got = SL.map (fun t -> match lst t with
